@@ -205,8 +205,19 @@ theorem setVal_holds (s : MState) (k : Bytes) (v0 v : Val) (h : Holds s k v0) :
       · rfl
       · exact hv2
 
+/-- `unpersist` only touches the backend -/
+theorem unpersist_index (s : MState) (k : Bytes) (m : Meta) : (unpersist s k m).index = s.index := by
+  unfold unpersist; split <;> rfl
+
+theorem delKey_index (s : MState) (k : Bytes) : (delKey s k).index = AList.erase s.index k := by
+  unfold delKey
+  split
+  · simp only [unpersist_index]
+  · rfl
+
 theorem delKey_none (s : MState) (k : Bytes) (hs : AList.Sorted s.index) :
-    getMeta (delKey s k) k = none := get?_erase_self k s.index hs
+    getMeta (delKey s k) k = none := by
+  unfold getMeta; rw [delKey_index]; exact get?_erase_self k s.index hs
 
 theorem signal_none (s : MState) (k : Bytes) (h : getMeta s k = none) :
     getMeta (signal s k) k = none := by
